@@ -14,6 +14,11 @@ Representation
 * Statements that merely walk their children (`loop`, `while`, `times`, `if/else if/else`, return,
   assignment, ...) have no resolver-specific code (`ast::walk_stmt`); they are sequences of
   expression visits and block visits and are spliced as such (see `Stmt.loop` etc. below).
+* Expressions are trees (`Expr`): the resolver handles a call specially (the callee name is resolved
+  first, its signature then decides which arguments are visited at all and which enum each of them
+  is expected to be, `visit_call_args_with_signature_info`); every other node only walks its children.
+  An argument beyond the callee's parameter count is never visited (`match_params_to_args` zips):
+  its identifiers get no definition and no diagnostic, which the model records as `Event.skipped`.
 * A rib stack is a `List Rib` with the innermost rib first.  `leave_rib` is represented by lexical
   scoping of the functional visitor (every `enter_new_rib` of the Rust visitor is paired with a
   `leave_rib` of the same literal kind in the same method, with no early exit in between).
@@ -83,6 +88,10 @@ inductive Event where
   | err (id : Nat) (e : ErrClass)
   /-- an `assert!`/`expect`/`panic!` of the real code would fire -/
   | panic (site : String)
+  /-- the identifier `id` is never looked at (no `record_resolution`, no diagnostic): it sits in a
+  call argument beyond the callee's parameter count, or it is a parameter name of a function
+  declaration without body -/
+  | skipped (id : Nat)
 deriving DecidableEq, Repr
 
 /-- use of a name in an expression -/
@@ -96,16 +105,28 @@ structure Use where
   enumQual : Option Name := none
 deriving DecidableEq, Repr
 
+/-- an expression as the resolver walks it (`visit_expr`) -/
+inductive Expr where
+  /-- a variable, or `Enum.name` -/
+  | use (u : Use)
+  /-- any node that only walks its children in order (operators, ternaries, casts, ...) -/
+  | group (es : List Expr)
+  /-- `name(args)`: `u` is the callee name (namespace `funcs`) -/
+  | call (u : Use) (args : List Expr)
+  /-- `ins_N(args)` -/
+  | raw (opcode : Int) (args : List Expr)
+deriving Repr
+
 /-- `name = init` in a declaration or const item -/
 structure DeclVar where
   id : Nat
   name : Name
-  init : List Use
+  init : List Expr
 deriving Repr
 
 inductive Stmt where
-  /-- any statement that only evaluates expressions; uses in visit order -/
-  | expr (us : List Use)
+  /-- any statement that only evaluates expressions, in visit order -/
+  | expr (es : List Expr)
   /-- `int a = e, b = f;` -/
   | decl (vars : List DeclVar)
   | block (b : List Stmt)
@@ -114,15 +135,20 @@ inductive Stmt where
   /-- `const T a = e, b = f;` -/
   | const (vars : List DeclVar)
   | script (body : List Stmt)
+  /-- `T name(params);`: a declaration without body.  The name is an item like any function; the
+  parameter names declare nothing (`visit_item` does not look at them) -/
+  | funcDecl (id : Nat) (name : Name) (qual : FuncQual) (params : List (Nat × Name))
 deriving Repr
 
 /-! Compound statements as `ast::walk_stmt` walks them. -/
 def Stmt.loop (b : List Stmt) : List Stmt := [.block b]
 /-- `while (c) { b }` walks the block, then the condition; `do { b } while (c)` the other way -/
-def Stmt.while (doWhile : Bool) (c : List Use) (b : List Stmt) : List Stmt :=
+def Stmt.while (doWhile : Bool) (c : List Expr) (b : List Stmt) : List Stmt :=
   if doWhile then [.expr c, .block b] else [.block b, .expr c]
-def Stmt.times (us : List Use) (b : List Stmt) : List Stmt := [.expr us, .block b]
-def Stmt.condChain (branches : List (List Use × List Stmt)) (els : Option (List Stmt)) : List Stmt :=
+def Stmt.times (es : List Expr) (b : List Stmt) : List Stmt := [.expr es, .block b]
+/-- `times(x = n) { b }`: the clobbered variable `x` is an ordinary use, visited before the count -/
+def Stmt.timesClobber (x : Use) (es : List Expr) (b : List Stmt) : List Stmt := [.expr (.use x :: es), .block b]
+def Stmt.condChain (branches : List (List Expr × List Stmt)) (els : Option (List Stmt)) : List Stmt :=
   branches.flatMap (fun br => [Stmt.expr br.1, Stmt.block br.2]) ++
     (match els with | some b => [Stmt.block b] | none => [])
 
@@ -144,7 +170,22 @@ structure Globals where
   funcsLang : Lang
   /-- language of `script`s (`AssignLanguagesOptions::scripts`) -/
   scriptsLang : Lang
+  /-- `!ins_signatures`: `(language, opcode, enum expected by each parameter)`; an instruction
+  that is not listed has no signature (`InsMissingSigError`) -/
+  insSigs : List (Lang × Int × List (Option Name)) := []
+  /-- signatures of the user functions of the program (number of parameters), keyed by the
+  occurrence id of the declaring identifier: `define_user_func` stores them in `ctx.defs` when the
+  item is added to scope.  The table is global in the real code too, and an entry is looked up only
+  after the callee name resolved to that function, so filling it up front is equivalent;
+  `resolveRibs` / `resolveSpec` fill it from the program (`Globals.withProgram`). -/
+  funcSigs : List (Nat × Nat) := []
 deriving Repr
+
+/-- a signature as far as name resolution looks at it: the `ty_color` of each parameter -/
+abbrev Sig := List (Option Name)
+
+def Globals.insSig (g : Globals) (l : Lang) (op : Int) : Option Sig :=
+  (g.insSigs.find? fun s => s.1 == l && s.2.1 == op).map (·.2.2)
 
 /-! ## Ribs (`resolve::rib`) -/
 
@@ -229,6 +270,22 @@ def Globals.initialVars (g : Globals) : List Rib :=
 def Globals.initialFuncs (g : Globals) : List Rib :=
   g.langs.reverse.map g.insRib ++ [Rib.new .dummyRoot]
 
+/-- `Defs::initial_ribs`: the `Vec` as it is returned, bottom of the stacks first: the instruction
+alias rib of every language, the register alias rib of every language, the builtin consts, the
+enum consts. -/
+def Globals.initialRibsVec (g : Globals) : List (Ns × Rib) :=
+  g.langs.map (fun l => (Ns.funcs, g.insRib l)) ++ g.langs.map (fun l => (Ns.vars, g.regRib l)) ++
+    [(Ns.vars, g.builtinRib), (Ns.vars, g.enumRib)]
+
+/-- `RibStacks::from_iter`: every rib is pushed on the stack of its namespace, on top of `DummyRoot` -/
+def pushRib (st : Stacks) (r : Ns × Rib) : Stacks :=
+  match r.1 with
+  | .vars => { st with vars := r.2 :: st.vars }
+  | .funcs => { st with funcs := r.2 :: st.funcs }
+
+def ribStacksFromIter (v : List (Ns × Rib)) : Stacks :=
+  v.foldl pushRib ⟨[Rib.new .dummyRoot], [Rib.new .dummyRoot]⟩
+
 /-! ## Unqualified enum consts (`resolve_unqualified_enum_const`) -/
 
 def Globals.enumHas (g : Globals) (e n : Name) : Bool := g.enumConsts.any fun p => p.1 == e && p.2 == n
@@ -279,6 +336,58 @@ def visitUse (g : Globals) (lang : Option Lang) (st : Stacks) (u : Use) : Event 
   | some e => resolveQualifiedEnumConst g u e
   | none => visitUseScoped g lang st u
 
+/-! ## Walking an expression (`visit_expr`, `visit_call_`, `visit_call_args_with_signature_info`) -/
+
+/-- `func_signature_from_ast` once the callee resolved to `d`: a user function has the signature
+it was declared with (its parameters carry no enum), an instruction alias the signature of its
+instruction if there is one -/
+def Globals.sigOfDef (g : Globals) : Def → Option Sig
+  | .decl id => (g.funcSigs.lookup id).map fun n => List.replicate n none
+  | .insAlias l op => g.insSig l op
+  | _ => none
+
+/-- the signature after visiting the callee name: none if resolving the name failed -/
+def Globals.sigOfEvent (g : Globals) : Event → Option Sig
+  | .res _ d => g.sigOfDef d
+  | _ => none
+
+mutual
+/-- the identifiers of an expression that is never visited -/
+def skipExpr : Expr → List Event
+  | .use u => [.skipped u.id]
+  | .group es => skipExprs es
+  | .call u args => .skipped u.id :: skipExprs args
+  | .raw _ args => skipExprs args
+def skipExprs : List Expr → List Event
+  | [] => []
+  | e :: es => skipExpr e ++ skipExprs es
+end
+
+mutual
+/-- `visit_expr` while `ty_color_stack.last() = c`.  `look` is what `visit_var` /
+`visit_callable_name_` do with one identifier at the current program point; it is the only thing
+that differs between the rib-stack resolver and the scoping specification. -/
+def walkExpr (g : Globals) (lang : Option Lang) (look : Use → Event) (c : Option Name) : Expr → List Event
+  | .use u => [look { u with color := c }]
+  | .group es => walkExprs g lang look c es
+  | .call u args =>
+    look { u with color := c } :: walkArgs g lang look c (g.sigOfEvent (look { u with color := c })) args
+  | .raw op args =>
+    walkArgs g lang look c (match lang with | some l => g.insSig l op | none => none) args
+def walkExprs (g : Globals) (lang : Option Lang) (look : Use → Event) (c : Option Name) : List Expr → List Event
+  | [] => []
+  | e :: es => walkExpr g lang look c e ++ walkExprs g lang look c es
+/-- `visit_call_args_with_signature_info`: without a signature every argument is visited and the
+expected enum stays what it was; with one, argument `i` is visited with the enum of parameter `i`
+and the arguments beyond the last parameter are not visited at all -/
+def walkArgs (g : Globals) (lang : Option Lang) (look : Use → Event) (c : Option Name) :
+    Option Sig → List Expr → List Event
+  | _, [] => []
+  | none, e :: es => walkExpr g lang look c e ++ walkArgs g lang look c none es
+  | some [], e :: es => skipExpr e ++ walkArgs g lang look c (some []) es
+  | some (pc :: ps), e :: es => walkExpr g lang look pc e ++ walkArgs g lang look c (some ps) es
+end
+
 /-- `add_to_rib_with_redefinition_check` (after `define_*` made `Def.decl id`) -/
 def addToRib (stack : List Rib) (expected : RibKind) (ns : Ns) (id : Nat) (name : Name) : List Rib × List Event :=
   match stack with
@@ -307,6 +416,9 @@ def addItemToScope (st : Stacks) : Stmt → Stacks × List Event
   | .func id name _ _ _ =>
     let r := addToRib st.funcs .items .funcs id name
     ({ st with funcs := r.1 }, .selfRes id :: r.2)
+  | .funcDecl id name _ _ =>
+    let r := addToRib st.funcs .items .funcs id name
+    ({ st with funcs := r.1 }, .selfRes id :: r.2)
   | .const vars => addConstVars st vars
   | _ => (st, [])
 
@@ -329,7 +441,7 @@ def addParams (st : Stacks) : List (Nat × Name) → Stacks × List Event
 def visitDeclVars (g : Globals) (lang : Option Lang) (st : Stacks) : List DeclVar → Stacks × List Event
   | [] => (st, [])
   | v :: vs =>
-    let ev1 := v.init.map (visitUse g lang st)
+    let ev1 := walkExprs g lang (visitUse g lang st) none v.init
     let r := addToRib st.vars .locals .vars v.id v.name
     let r2 := visitDeclVars g lang { st with vars := r.1 } vs
     (r2.1, ev1 ++ .selfRes v.id :: r.2 ++ r2.2)
@@ -351,7 +463,7 @@ mutual
 /-- `visit_stmt`; returns the rib stacks afterwards (only the top `Locals` rib can have grown).
 Blocks are visited by `visit_block` = `enterBlock` followed by the statements. -/
 def visitStmt (g : Globals) (lang : Option Lang) (st : Stacks) : Stmt → Stacks × List Event
-  | .expr us => (st, us.map (visitUse g lang st))
+  | .expr es => (st, walkExprs g lang (visitUse g lang st) none es)
   | .decl vars => visitDeclVars g lang st vars
   | .block b => (st, (enterBlock st b).2 ++ visitStmts g lang (enterBlock st b).1 b)
   | .func _ _ qual params body =>
@@ -360,9 +472,10 @@ def visitStmt (g : Globals) (lang : Option Lang) (st : Stacks) : Stmt → Stacks
     (st, r.2 ++ ((enterBlock r.1 body).2 ++ visitStmts g (funcLang g qual) (enterBlock r.1 body).1 body))
   | .const vars =>
     let st1 : Stacks := { st with vars := Rib.new (.barrier .const) :: st.vars }
-    (st, vars.flatMap fun v => v.init.map (visitUse g none st1))
+    (st, vars.flatMap fun v => walkExprs g none (visitUse g none st1) none v.init)
   | .script body =>
     (st, (enterBlock st body).2 ++ visitStmts g (some g.scriptsLang) (enterBlock st body).1 body)
+  | .funcDecl _ _ _ params => (st, params.map fun p => Event.skipped p.1)
 def visitStmts (g : Globals) (lang : Option Lang) (st : Stacks) : List Stmt → List Event
   | [] => []
   | s :: ss => (visitStmt g lang st s).2 ++ visitStmts g lang (visitStmt g lang st s).1 ss
@@ -374,15 +487,37 @@ def visitBlock (g : Globals) (lang : Option Lang) (st : Stacks) (b : List Stmt) 
 
 def Globals.initialStacks (g : Globals) : Stacks := ⟨g.initialVars, g.initialFuncs⟩
 
-/-- `visit_file` on a script file (its items). -/
-def resolveRibs (g : Globals) (items : List Stmt) : List Event :=
+mutual
+/-- `(occurrence id of the name, number of parameters)` of every function item of the program -/
+def stmtFuncSigs : Stmt → List (Nat × Nat)
+  | .func id _ _ params body => (id, params.length) :: stmtsFuncSigs body
+  | .funcDecl id _ _ params => [(id, params.length)]
+  | .block b => stmtsFuncSigs b
+  | .script b => stmtsFuncSigs b
+  | .expr _ => []
+  | .decl _ => []
+  | .const _ => []
+def stmtsFuncSigs : List Stmt → List (Nat × Nat)
+  | [] => []
+  | s :: ss => stmtFuncSigs s ++ stmtsFuncSigs ss
+end
+
+/-- the globals together with what `ctx.defs` knows about the functions of the program -/
+def Globals.withProgram (g : Globals) (items : List Stmt) : Globals := { g with funcSigs := stmtsFuncSigs items }
+
+/-- `visit_file` with the given table of function signatures -/
+def resolveRibsWith (g : Globals) (items : List Stmt) : List Event :=
   let st0 : Stacks := { vars := Rib.new .items :: g.initialVars, funcs := Rib.new .items :: g.initialFuncs }
   let r := addItems st0 items
   r.2 ++ visitStmts g (some g.funcsLang) r.1 items
 
+/-- `visit_file` on a script file (its items). -/
+def resolveRibs (g : Globals) (items : List Stmt) : List Event :=
+  resolveRibsWith (g.withProgram items) items
+
 /-- `resolve_names` called directly on a block (as the unit tests do) -/
 def resolveRibsBlock (g : Globals) (b : List Stmt) : List Event :=
-  visitBlock g (some g.funcsLang) g.initialStacks b
+  visitBlock (g.withProgram b) (some g.funcsLang) (g.withProgram b).initialStacks b
 
 /-! ## `Resolutions` -/
 
@@ -501,6 +636,7 @@ def specUse (g : Globals) (lang : Option Lang) (env : Env) (u : Use) : Event :=
 def itemDecls : List Stmt → List (Ns × Nat × Name)
   | [] => []
   | .func id name _ _ _ :: r => (.funcs, id, name) :: itemDecls r
+  | .funcDecl id name _ _ :: r => (.funcs, id, name) :: itemDecls r
   | .const vars :: r => vars.map (fun v => (Ns.vars, v.id, v.name)) ++ itemDecls r
   | _ :: r => itemDecls r
 
@@ -547,7 +683,7 @@ def specDeclVars (g : Globals) (lang : Option Lang) (env : Env) (here : Name →
   | v :: vs =>
     let r := specDeclVars g lang { env with vars := update env.vars v.name (.loc .local (.decl v.id)) }
       (fun n => n = v.name || here n) vs
-    (r.1, v.init.map (specUse g lang env) ++
+    (r.1, walkExprs g lang (specUse g lang env) none v.init ++
       .selfRes v.id :: (if here v.name then [.redef v.id .local] else []) ++ r.2)
 
 mutual
@@ -555,7 +691,7 @@ mutual
 (`declEvents`) and is then walked in the environment extended by them (`specBlock` below). -/
 def specStmt (g : Globals) (lang : Option Lang) (env : Env) (here : Name → Bool) :
     Stmt → (Env × (Name → Bool)) × List Event
-  | .expr us => ((env, here), us.map (specUse g lang env))
+  | .expr es => ((env, here), walkExprs g lang (specUse g lang env) none es)
   | .decl vars => specDeclVars g lang env here vars
   | .block b =>
     ((env, here), declEvents itemNoun (fun _ _ => false) (itemDecls b) ++
@@ -565,10 +701,11 @@ def specStmt (g : Globals) (lang : Option Lang) (env : Env) (here : Name → Boo
     ((env, here), r.2 ++ (declEvents itemNoun (fun _ _ => false) (itemDecls body) ++
       specStmts g (funcLang g qual) (r.1.withItems (itemDecls body)) (fun _ => false) body))
   | .const vars =>
-    ((env, here), vars.flatMap fun v => v.init.map (specUse g none (env.hide .const)))
+    ((env, here), vars.flatMap fun v => walkExprs g none (specUse g none (env.hide .const)) none v.init)
   | .script body =>
     ((env, here), declEvents itemNoun (fun _ _ => false) (itemDecls body) ++
       specStmts g (some g.scriptsLang) (env.withItems (itemDecls body)) (fun _ => false) body)
+  | .funcDecl _ _ _ params => ((env, here), params.map fun p => Event.skipped p.1)
 def specStmts (g : Globals) (lang : Option Lang) (env : Env) (here : Name → Bool) : List Stmt → List Event
   | [] => []
   | s :: ss =>
@@ -582,12 +719,15 @@ def specBlock (g : Globals) (lang : Option Lang) (env : Env) (b : List Stmt) : L
 
 def Env.empty : Env := ⟨fun _ => none, fun _ => none⟩
 
-def resolveSpec (g : Globals) (items : List Stmt) : List Event :=
+def resolveSpecWith (g : Globals) (items : List Stmt) : List Event :=
   declEvents itemNoun (fun _ _ => false) (itemDecls items) ++
     specStmts g (some g.funcsLang) (Env.empty.withItems (itemDecls items)) (fun _ => false) items
 
+def resolveSpec (g : Globals) (items : List Stmt) : List Event :=
+  resolveSpecWith (g.withProgram items) items
+
 def resolveSpecBlock (g : Globals) (b : List Stmt) : List Event :=
-  specBlock g (some g.funcsLang) Env.empty b
+  specBlock (g.withProgram b) (some g.funcsLang) Env.empty b
 
 /-! ## Consistent renaming
 
@@ -607,6 +747,18 @@ def renUse (ρ : Name → Name) (env : Env) (u : Use) : Use :=
   | some _ => u
   | none => renUseScoped ρ env u
 
+mutual
+/-- every identifier of an expression is renamed, also in arguments that are never visited -/
+def renExpr (ρ : Name → Name) (env : Env) : Expr → Expr
+  | .use u => .use (renUse ρ env u)
+  | .group es => .group (renExprs ρ env es)
+  | .call u args => .call (renUse ρ env u) (renExprs ρ env args)
+  | .raw op args => .raw op (renExprs ρ env args)
+def renExprs (ρ : Name → Name) (env : Env) : List Expr → List Expr
+  | [] => []
+  | e :: es => renExpr ρ env e :: renExprs ρ env es
+end
+
 /-- the environment after local declarations -/
 def declEnv (env : Env) : List DeclVar → Env
   | [] => env
@@ -624,15 +776,15 @@ def envAfter (env : Env) : Stmt → Env
 def renDeclVars (ρ : Name → Name) (env : Env) : List DeclVar → List DeclVar
   | [] => []
   | v :: vs =>
-    { v with name := ρ v.name, init := v.init.map (renUse ρ env) } ::
+    { v with name := ρ v.name, init := renExprs ρ env v.init } ::
       renDeclVars ρ { env with vars := update env.vars v.name (.loc .local (.decl v.id)) } vs
 
 def renConstVars (ρ : Name → Name) (env : Env) (vars : List DeclVar) : List DeclVar :=
-  vars.map fun v => { v with name := ρ v.name, init := v.init.map (renUse ρ env) }
+  vars.map fun v => { v with name := ρ v.name, init := renExprs ρ env v.init }
 
 mutual
 def renStmt (ρ : Name → Name) (env : Env) : Stmt → Stmt
-  | .expr us => .expr (us.map (renUse ρ env))
+  | .expr es => .expr (renExprs ρ env es)
   | .decl vars => .decl (renDeclVars ρ env vars)
   | .block b => .block (renStmts ρ (env.withItems (itemDecls b)) b)
   | .func id name qual params body =>
@@ -640,6 +792,7 @@ def renStmt (ρ : Name → Name) (env : Env) : Stmt → Stmt
       (renStmts ρ ((paramEnv (env.hide .function) params).withItems (itemDecls body)) body)
   | .const vars => .const (renConstVars ρ (env.hide .const) vars)
   | .script b => .script (renStmts ρ (env.withItems (itemDecls b)) b)
+  | .funcDecl id name qual params => .funcDecl id (ρ name) qual params
 def renStmts (ρ : Name → Name) (env : Env) : List Stmt → List Stmt
   | [] => []
   | s :: ss => renStmt ρ env s :: renStmts ρ (envAfter env s) ss
@@ -651,17 +804,30 @@ def renameFile (ρ : Name → Name) (items : List Stmt) : List Stmt :=
 def renameBlock (ρ : Name → Name) (b : List Stmt) : List Stmt :=
   renStmts ρ (Env.empty.withItems (itemDecls b)) b
 
-def usesNames (us : List Use) : List Name := us.map (·.name)
+mutual
+/-- the names used in an expression -/
+def exprNames : Expr → List Name
+  | .use u => [u.name]
+  | .group es => exprsNames es
+  | .call u args => u.name :: exprsNames args
+  | .raw _ args => exprsNames args
+def exprsNames : List Expr → List Name
+  | [] => []
+  | e :: es => exprNames e ++ exprsNames es
+end
+
+def usesNames (es : List Expr) : List Name := exprsNames es
 
 mutual
 /-- every name that occurs in a statement (declared or used) -/
 def stmtNames : Stmt → List Name
-  | .expr us => usesNames us
+  | .expr es => usesNames es
   | .decl vars => vars.flatMap fun v => v.name :: usesNames v.init
   | .block b => stmtsNames b
   | .func _ name _ params body => name :: (params.map (·.2) ++ stmtsNames body)
   | .const vars => vars.flatMap fun v => v.name :: usesNames v.init
   | .script b => stmtsNames b
+  | .funcDecl _ name _ _ => [name]
 def stmtsNames : List Stmt → List Name
   | [] => []
   | s :: ss => stmtNames s ++ stmtsNames ss
@@ -676,6 +842,7 @@ def stmtDeclNames : Stmt → List Name
   | .func _ name _ params body => name :: (params.map (·.2) ++ stmtsDeclNames body)
   | .const vars => vars.map (·.name)
   | .script b => stmtsDeclNames b
+  | .funcDecl _ name _ _ => [name]
 def stmtsDeclNames : List Stmt → List Name
   | [] => []
   | s :: ss => stmtDeclNames s ++ stmtsDeclNames ss
